@@ -18,7 +18,9 @@ import (
 // C04 - every Ask completes exactly once, with its own reply, timeout, or death (DESIGN.md 3, C04).
 
 func init() {
-	register(&Workload{Prop: "C04", Variant: "ask", Horizon: 30 * time.Minute, MaxSteps: 400000, MaxG: 4096, Spin: 10000, PCTLen: 4000, Race: true, Body: c04Ask})
+	register(&Workload{Prop: "C04", Variant: "ask", Horizon: 30 * time.Minute, MaxSteps: 400000, MaxG: 4096, Spin: 10000, PCTLen: 4000, Race: true, Weight: 3, Body: func(r *R) { c04Ask(r, false) }})
+	// the asker dies with several Asks outstanding while some of them are being completed at the same instant
+	register(&Workload{Prop: "C04", Variant: "asker-death", Horizon: 30 * time.Minute, MaxSteps: 400000, MaxG: 4096, Spin: 10000, PCTLen: 2500, Race: true, Weight: 1, Body: func(r *R) { c04Ask(r, true) }})
 }
 
 type c04Req struct {
@@ -60,7 +62,7 @@ type c04AskT struct {
 
 
 
-func c04Ask(r *R) {
+func c04Ask(r *R, deathFocus bool) {
 	w := newWorld(r, WorldOpt{})
 	if r.Failed() {
 		return
@@ -135,6 +137,23 @@ func c04Ask(r *R) {
 	if r.Chance(30) {
 		killAsker = r.Choose(nAskers)
 		killAt = delays[r.Choose(len(delays))]
+	}
+	if deathFocus {
+		// every Ask comes from one actor; most replies are due exactly when it is killed
+		killAsker = 0
+		killAt = delays[r.Choose(len(delays))]
+		for _, a := range asks {
+			a.fromActor = 0
+			a.closeAt = -1
+			if r.Chance(60) {
+				a.req.Mode, a.req.Delay = 2, killAt
+			} else if r.Chance(50) {
+				a.req.Mode = 4
+			}
+			if a.timeout <= killAt {
+				a.timeout = 30 * time.Second
+			}
+		}
 	}
 	r.Sample(map[string]any{"asks": adesc, "kill_asker": killAsker, "kill_at": killAt.String()})
 	var fwdRefs = map[int]vivid.ActorRefs{}
@@ -323,6 +342,10 @@ func c04Ask(r *R) {
 			}
 			if done > deadline {
 				r.Fail("C04/timeout-late", "%s: Result/Wait blocked until %v, beyond the deadline %v", desc, done, deadline)
+				return
+			}
+			if a.fromActor == killAsker && killedAt >= 0 && a.askAt <= killedAt && killedAt < deadline {
+				r.Fail("C04/asker-death-not-propagated", "%s: the asking actor was killed at %v, before the deadline %v, but the future was left to run into its time-out instead of completing with actor-dead", desc, killedAt, deadline)
 				return
 			}
 			if replyAt >= 0 && replyAt < deadline && !killedFirst && !(a.closed && a.closedAt <= deadline) {
